@@ -226,10 +226,12 @@ Print Assumptions C09_sweep_invariant_finite.
 (* ---- cached target evaluations of the concrete block samplers ---- *)
 (* GUARD = exact complement of the refuted class: either the repaired HybridGibbs (fresh = true: cached evaluations
    are recomputed when the target is re-conditioned; fixes/C09_refresh_cached_target_evaluations.diff), or, for the
-   code as it is (fresh = false), no block sampler that caches evaluations of its target (no KMH; the recording
-   samplers, Direct, Conjugate, LinearRTO, ... and the re-initialised NUTS cache nothing that is restored). *)
+   state-restoring code (fresh = false), no block sampler whose cached evaluations are restored (no KMH, no KOpq =
+   MH/CWMH/MALA/ULA/PCN; the recording samplers, Direct, Conjugate, LinearRTO cache nothing, and the NUTS branch is
+   re-initialised at the current point: its cached log-density AND gradient are part of the statement).  cache_ok covers
+   the log-density (MH) and log-density + gradient (KOpq, KNuts). *)
 Theorem C09_block_cache_consistent : forall (fresh : bool) (condf : list vec -> nat -> vec -> Q) nst rnd ops t0 (x : @run vec Q sst),
-  (fresh = true \/ Forall (fun s => s_kind s <> KMH) (g_ss (r_st x))) ->
+  (fresh = true \/ Forall no_restored_cache (g_ss (r_st x))) ->
   length (g_ss (r_st x)) = length (g_cur (r_st x)) ->
   Forall (fun e => cache_ok (e_tgt e) (e_s e)) (r_log x) ->
   Forall (fun e => cache_ok (e_tgt e) (e_s e))
